@@ -454,6 +454,35 @@ pub fn generate(seed: u64, cases: usize, out: &mut dyn FnMut(String)) {
             out(finish(head, res));
         }
     }
+    // ------------------------------------------------------------------ StreamInfo::new (parse back through a frameless stream)
+    for &(rate, ch, bps) in &[(44100usize, 2usize, 16usize), (1, 1, 8), (96000, 8, 24), (0, 1, 12), (96001, 2, 16), (44100, 0, 16), (44100, 9, 16),
+                              (44100, 2, 17), (44100, 2, 20), (44100, 2, 32), ((1usize << 32) + 44100, 2, 16), (44100, 258, 16), (44100, 2, 272)] {
+        for &bs in &[0usize, 64, 4096] {
+            let head = format!("comp id={} cls=sinfo|{}|{} ctor=sinfo a={rate};{ch};{bps};{bs}", next_id(), (rate <= 96000 && (1..=8).contains(&ch)) as u8, bs);
+            let res = catch(move || {
+                StreamInfo::new(rate, ch, bps).ok().map(|mut si| {
+                    if bs > 0 {
+                        si.set_block_sizes(bs, bs).unwrap();
+                    }
+                    let want = si.clone();
+                    let pb = move |bytes: &[u8]| {
+                        let b = bytes.to_vec();
+                        let w = want.clone();
+                        catch(move || match parser::stream_info::<nom::error::Error<&[u8]>>(&b) {
+                            Ok((rest, got)) => {
+                                if rest.is_empty() && got == w { "same".to_string() } else { "diff".to_string() }
+                            }
+                            Err(_) => "err".to_string(),
+                        })
+                        .unwrap_or_else(|_| "panic".to_string())
+                    };
+                    observe(&si, &pb, true)
+                })
+            });
+            out(finish(head, res));
+        }
+    }
+
     // ------------------------------------------------------------------ whole streams (C12, C08)
     // small streams with every subframe type, written to a sink failing on its k-th operation for
     // every k; frames with and without a precomputed bitstream (multi-thread output has them)
